@@ -193,12 +193,12 @@ PROPS["C12"] = {
     "harnesses": ["vh_c12"],
     "level": "proof",
     "technique": "Lean 4 declarative pairwise definition of the experimental (cross-)variogram decided exactly on squared quantities + transcription of the pair loop proved to enumerate every pair once; symmetry and translation invariance as theorems; exact/2^-36 differential correspondence with Vario::computeFromDb on generated data sets and direction specifications",
-    "level_text": "Partial proof: pair enumeration of the general algorithm, the exact characterisation of the lag assigned to a pair, symmetry in the variables and translation invariance are theorems; the numbers of pairs (weights), mean distances and variogram values of the library are compared with the pairwise definition evaluated in exact rational arithmetic for each lag (pair weights exactly; values to 2^-36). The VARIOGRAM and ORDER4 estimators of the general (non-grid) algorithm are covered.",
+    "level_text": "Partial proof: pair enumeration of the general algorithm, the exact characterisation of the lag assigned to a pair, symmetry in the variables and translation invariance are theorems; the numbers of pairs (weights), mean distances and variogram values of the library are compared with the pairwise definition evaluated in exact rational arithmetic for each lag (pair weights exactly; values to 2^-36). The VARIOGRAM, ORDER4, POISSON, MADOGRAM and RODOGRAM estimators of the general (non-grid) algorithm are covered (square roots by a rational Newton iteration, compared to 2^-36), with regular lags and irregular classes; the mean of each variable reported by the variogram is compared with the weighted mean of the model.",
     "level_note": "Trusted: Lean kernel + 3 standard axioms; sqrt enters only the comparison of the mean distance (rational Newton enclosure), never a pair/lag decision; configurations with a lag / cone / cylinder decision within 2^-30 of its boundary are skipped and counted; Db::getWeight semantics (undefined weight = 1) is followed.",
-    "rule": "random data sets (1-3D, 3-30 samples on dyadic lattices: regular, random, clustered; 1-3 variables with undefined cells; optional weights and selection), one direction with 2-8 lags of step odd/16 (a quarter of the configurations: irregular classes given by breaks, first break 0 or positive, sometimes a duplicated location), distance tolerance in {1/2,1/4,3/8}, angular tolerance in {90,70,50,35,20} degrees, lattice direction vectors, optional bench / cylinder; every (ivar,jvar) pair. distinct = distinct request line; trivial = fewer than 3 active samples",
+    "rule": "random data sets (1-3D, 3-30 samples on dyadic lattices: regular, random, clustered; 1-3 variables with undefined cells; optional weights and selection), one direction with 2-8 lags of step odd/16 (a quarter of the configurations: irregular classes given by breaks, first break 0 or positive, sometimes a duplicated location), distance tolerance in {1/2,1/4,3/8}, angular tolerance in {90,70,50,35,20} degrees, lattice direction vectors, optional bench / cylinder; estimator drawn among variogram / order-4 / Poisson / madogram / rodogram; every (ivar,jvar) pair. distinct = distinct request line; trivial = fewer than 3 active samples",
     "trivial": lambda line: False,
     "trusted_base": TB_COMMON,
-    "uncovered": ["estimators other than VARIOGRAM and ORDER4 (covariance, covariogram, madogram, rodogram, poisson, general increments)", "grid-specialised algorithm, vmap, vcloud", "irregular lags (breaks), dates, codes", "permutation invariance is exercised through the unsorted input order only"],
+    "uncovered": ["asymmetric estimators (covariance, covariogram) and general increments", "grid-specialised algorithm, vmap, vcloud", "dates, codes", "permutation invariance is exercised through the unsorted input order only"],
     "assumptions": ["boundary decisions excluded by exact margins"],
 }
 
